@@ -93,7 +93,7 @@ type nopWC struct{ io.Writer }
 func (nopWC) Close() error { return nil }
 
 // inside the server's critical sections: never sleep there
-var noSleep = map[string]bool{"close_begin": true, "close_noop": true, "refuse": true, "admit": true, "register": true,
+var noSleep = map[string]bool{"close_begin": true, "close_noop": true, "refuse": true, "admitted": true, "register": true,
 	"unregister": true, "setres": true, "wake": true, "wake_coalesced": true, "broadcast_done": true}
 
 func New(work string, seed int64, perturb bool) (*Session, error) {
@@ -163,6 +163,10 @@ func (s *Session) sink(ev d2cli.VerifEvent) {
 	var d time.Duration
 	if s.Perturb && !noSleep[ev.Kind] && s.rng.Intn(4) == 0 {
 		d = time.Duration(s.rng.Intn(2500)) * time.Microsecond
+	}
+	if s.Perturb && ev.Kind == "accepted" && s.rng.Intn(2) == 0 {
+		// between the admission and the start of the handler goroutine: the window close() must cover
+		d = time.Duration(s.rng.Intn(4000)) * time.Microsecond
 	}
 	s.mu.Unlock()
 	if d > 0 {
@@ -407,7 +411,7 @@ func RunScript(work string, seed int64, perturb bool, script []Op) (map[string]a
 		case "usleep":
 			time.Sleep(time.Duration(op.Ms) * time.Microsecond)
 		case "quiesce":
-			s.Quiesce(250*time.Millisecond, 8*time.Second)
+			s.Quiesce(200*time.Millisecond, 30*time.Second)
 		case "close":
 			s.CloseAsync()
 		case "close_wait":
